@@ -67,6 +67,8 @@ def sem_vars():
             a = mod.symbol('a', s, is_functional=True, is_ctor=True)
             b = mod.symbol('b', s, is_functional=True, is_ctor=True)
             f = mod.symbol('f', s, input_sorts=(s,), is_functional=True, is_ctor=True)
+            succ = mod.symbol('succ', s, input_sorts=(s,), is_functional=True, is_ctor=True)
+            mk = mod.symbol('mk_y', s, is_functional=True, is_ctor=True)
             g = mod.symbol('g', s, input_sorts=(s, s), is_functional=True, is_ctor=True)
             k = mod.symbol('k', cs, input_sorts=(s,), is_functional=True, is_ctor=True, is_cell=True)
             fr, to = KSortVar('From'), KSortVar('To')
@@ -76,12 +78,12 @@ def sem_vars():
             r = [mod.rewrite_rule(kore_rewrites(cs.aml_symbol, cell(f.app(X)), cell(g.app(X, X)))),
                  mod.rewrite_rule(kore_rewrites(cs.aml_symbol, cell(g.app(X, Y)), cell(f.app(Y)))),
                  mod.rewrite_rule(kore_rewrites(cs.aml_symbol, cell(f.app(X)), cell(inj.app(s.aml_symbol, s.aml_symbol, X))))]
-    ground = [a.app(), b.app(), f.app(a.app())]
+    ground = [a.app(), succ.app(b.app()), f.app(a.app()), mk.app()]
     events = []
     for t in ground:
         events.append((r[0], {0: t}))
         events.append((r[2], {0: t}))
-    for t, u in itertools.product(ground[:2], repeat=2):
+    for t, u in itertools.product([ground[0], ground[1], ground[3]], repeat=2):
         events.append((r[1], {0: t, 1: u}))
     inits = [k.app(f.app(a.app())), k.app(g.app(a.app(), b.app()))]
     return semantics, events, inits
